@@ -382,7 +382,7 @@ func c28WorkerMain() {
 		hung := false
 		select {
 		case res = <-done:
-		case <-time.After(timeout + 1500*time.Millisecond):
+		case <-time.After(timeout + 6*time.Second):
 			// Run did not come back after its context expired (e.g. `wait` on a blocked process
 			// substitution): report, and exit so that the parent starts a fresh worker.
 			res = c28Result{kind: "hang"}
@@ -563,7 +563,7 @@ var c28Known = []c28Sig{
 	{"C28-arith-lvalue-index", regexp.MustCompile(`variable name must not be empty`), []string{"interp.(*Runner).lookupVar", "expand.Arithm"}, nil},
 	{"C28-empty-variable-name", regexp.MustCompile(`variable name must not be empty`), []string{"interp.(*Runner).lookupVar"},
 		[]string{"interp.(*Runner).builtin", "interp.(*Runner).unTest"}},
-	{"C28-assoc-index-not-word", regexp.MustCompile(`interface conversion: syntax\.ArithmExpr is \*syntax\.\w+, not \*syntax\.Word`), nil,
+	{"C28-assoc-index-not-word", regexp.MustCompile(`interface conversion: syntax\.ArithmExpr is (nil|\*syntax\.\w+), not \*syntax\.Word`), nil,
 		[]string{"expand.(*Config).varInd", "expand.(*Config).assignElem", "interp.(*Runner).assignVal"}},
 	{"C28-preinc-postinc", regexp.MustCompile(`interface conversion: syntax\.ArithmExpr is \*syntax\.UnaryArithm, not \*syntax\.Word`), []string{"expand.Arithm"}, nil},
 	{"C28-test-nonword-operand", regexp.MustCompile(`interface conversion: syntax\.TestExpr is \*syntax\.\w+, not \*syntax\.Word`), []string{"interp.(*Runner).bashTest"}, nil},
